@@ -109,8 +109,12 @@ def _covers(update, mutation):
 def _r1(ctx, pkg):
     ci = pkg.cls("Network")
     n = 0
+    # helper PROCEDURES of the class are expanded where they are called (`self._rebuild_caches()` is the statements it holds); the
+    # adders stay calls: they are the cache-maintaining primitives _cache_updates knows
+    def procs(name):
+        return None if name in ("add_reaction", "_add_reaction", "add_reaction_from_file") else pkg.resolve("Network", name)[1]
     for mname, fn in ci.methods.items():
-        fl = Flow(fn, NF)
+        fl = Flow(fn, NF, proc_resolver=procs)
         muts = _mutations(fl)
         if not muts:
             continue
@@ -467,6 +471,7 @@ def _r6(ctx, pkg):
 
 
 EXT = "naunet/console/commands/extend.py"
+REBUILD = "        # the cached species sets must follow the reactions that are left\n        self._reactants = {r for reac in self.reaction_list for r in reac.reactants}\n        self._products = {p for reac in self.reaction_list for p in reac.products}\n"
 MUTANTS = [
     {"name": "extend-reduces-through-setter", "file": EXT, "old": "            net = Network(newlist)\n", "new": "            net.allowed_species = allowed_species\n", "rules": ["R7"]},
     {"name": "species-memo-missing-reset", "edits": [
@@ -484,9 +489,28 @@ MUTANTS = [
     {"name": "filter-reactants-only", "file": NF, "old": "                    for rp in reaction.reactants + reaction.products\n                ]\n            ):\n                self._skipped_reactions.append(reaction)", "new": "                    for rp in reaction.reactants\n                ]\n            ):\n                self._skipped_reactions.append(reaction)", "rules": ["R2"]},
     {"name": "undeclared-option-read", "file": EXT, "old": 'allowed_species = self.option("reduce-by-species")', "new": 'allowed_species = self.option("limit-species")', "rules": ["R3"]},
     {"name": "remove-in-place-backwards", "file": NF, "old": "            self.reaction_list = [\n                r for idx, r in enumerate(self.reaction_list) if idx not in reaction\n            ]\n", "new": "            for idx in sorted(reaction, reverse=True):\n                del self.reaction_list[idx]\n", "rules": ["R5"]},
+    {"name": "cache-rebuild-helper-forgets-products", "file": NF, "old": REBUILD,
+     "new": "        self._recache()\n\n    def _recache(self):\n        self._reactants = {r for reac in self.reaction_list for r in reac.reactants}\n", "rules": ["R1"]},
+    {"name": "products-grown-by-reactants-operator", "file": NF, "old": "        self._products.update(new_products)\n", "new": "        self._products |= new_reactants\n", "rules": ["R2"]},
+    {"name": "sink-by-operator-wrong-way", "file": NF, "old": "sink = self._products.difference(self._reactants)", "new": "sink = self._reactants - self._products", "rules": ["R4"]},
     {"name": "source-sink-swapped", "file": NF, "old": "source = self._reactants.difference(self._products)", "new": "source = self._reactants.difference(self._reactants)", "rules": ["R4"]},
 ]
 BENIGN = [
+    {"name": "cache-rebuild-in-helper-procedure", "file": NF, "old": REBUILD,
+     "new": "        self._recache()\n\n    def _recache(self):\n        self._reactants = {r for reac in self.reaction_list for r in reac.reactants}\n        self._products = {p for reac in self.reaction_list for p in reac.products}\n"},
+    {"name": "cache-growth-and-differences-by-operator", "edits": [
+        {"file": NF, "old": "        self._reactants.update(new_reactants)\n        self._products.update(new_products)\n", "new": "        self._reactants |= new_reactants\n        self._products = self._products | new_products\n"},
+        {"file": NF, "old": "        source = self._reactants.difference(self._products)\n        sink = self._products.difference(self._reactants)\n",
+         "new": "        consumed, produced = self._reactants, self._products\n        source = consumed - produced\n        sink = produced - consumed\n"}]},
+    {"name": "removal-by-closure-dispatch", "file": NF,
+     "old": "        elif isinstance(reaction, list) and all(isinstance(r, int) for r in reaction):\n            self.reaction_list = [\n                r for idx, r in enumerate(self.reaction_list) if idx not in reaction\n            ]\n\n"
+            "        elif isinstance(reaction, Reaction):\n            self.reaction_list = [r for r in self.reaction_list if r != reaction]\n\n"
+            "        elif isinstance(reaction, list) and all(\n            isinstance(r, Reaction) for r in reaction\n        ):\n            self.reaction_list = [r for r in self.reaction_list if r not in reaction]\n\n"
+            "        else:\n            raise TypeError\n",
+     "new": "        else:\n            if isinstance(reaction, list) and all(isinstance(r, int) for r in reaction):\n                def keep(idx, r):\n                    return idx not in reaction\n"
+            "            elif isinstance(reaction, Reaction):\n                def keep(idx, r):\n                    return r != reaction\n"
+            "            elif isinstance(reaction, list) and all(isinstance(r, Reaction) for r in reaction):\n                def keep(idx, r):\n                    return r not in reaction\n"
+            "            else:\n                raise TypeError\n            self.reaction_list = [r for idx, r in enumerate(self.reaction_list) if keep(idx, r)]\n"},
     {"name": "species-memo-reset-by-every-writer", "edits": [
         {"file": NF, "old": "            list[Species]: species in the network\n        \"\"\"\n", "new": "            list[Species]: species in the network\n        \"\"\"\n        if self._spc is not None:\n            return list(self._spc)\n"},
         {"file": NF, "old": "        speclist = sorted(speclist, key=lambda x: (len(connection[x]), x))\n", "new": "        speclist = sorted(speclist, key=lambda x: (len(connection[x]), x))\n        self._spc = speclist\n"},
